@@ -78,7 +78,8 @@ CAST = re.compile(r" as (bool|u8|u16|u32|u64|usize|i8|i16|i32|i64)\b")
 MUT = re.compile(r"\bmut ")
 INTS = ["u8", "u16", "u32", "u64", "usize", "i8", "i16", "i32", "i64"]
 OPS = ["+", "-", "*", "/", "%", "&&", "||", "&", "|", "^", "==", "!=", "<", ">", "<=", ">=", "<<", ">>"]
-TEXT_KINDS = ["ident", "ident", "ident", "suffix", "annot", "op", "op", "tupidx", "dropmut", "as"]
+FIELD = re.compile(r"(?<=[{,] )([a-z][a-z0-9]*)(?=: )")
+TEXT_KINDS = ["ident", "ident", "ident", "suffix", "annot", "op", "op", "tupidx", "dropmut", "as", "field"]
 
 
 def _sub(src, m, new):
@@ -88,7 +89,7 @@ def _sub(src, m, new):
 def text_mutant(rng, src):
     """(kind, mutated text): one token of the program text replaced — an identifier by another identifier of the
     program (or an unbound one), the suffix of a number, a type annotation, a binary operator, a tuple index, the
-    target of a cast, a `mut` dropped"""
+    target of a cast, a `mut` dropped, a field name replaced by another field name"""
     for _ in range(20):
         k = rng.choice(TEXT_KINDS)
         if k == "ident":
@@ -98,6 +99,14 @@ def text_mutant(rng, src):
             m = rng.choice(ms)
             names = sorted({x.group(0) for x in ms} - {m.group(0)}) + ["zz9"]
             return k, _sub(src, m, rng.choice(names))
+        if k == "field":
+            # a field name in a struct literal, pattern or definition replaced by another field name of the program
+            ms = list(FIELD.finditer(src))
+            names = sorted({x.group(1) for x in ms})
+            if len(names) < 2:
+                continue
+            m = rng.choice(ms)
+            return k, _sub(src, m, rng.choice([n for n in names if n != m.group(1)]))
         rx, pool, fmt = {"suffix": (SUFFIX, INTS, "{}"), "annot": (ANNOT, INTS + ["bool"], ": {}"), "op": (BINOP, OPS, " {} "),
                          "tupidx": (TUPIDX, ["0", "1", "2", "3", "4"], ".{}"), "as": (CAST, INTS + ["bool"], " as {}"),
                          "dropmut": (MUT, None, "")}[k]
